@@ -103,7 +103,7 @@ PROPS = {
         module="FastQr.Props.C05", more_modules=["FastQr.Props.C05Tables"],
         level="proof",
         key=key_buildv,
-        rule="cases: public QRBuilder on '1'*len with forced mode/level; quick = 4 lengths around every boundary of "
+        rule="cases: (`buildvh`: the same configurations also on a REUSED builder that has already built once at another level) public QRBuilder on '1'*len with forced mode/level; quick = 4 lengths around every boundary of "
              "the implementation's own Version::get graph x forced version in {none,V1,auto-1,auto,auto+1,V40} + random "
              "+ far-beyond-capacity lengths; thorough = every length 0..=7200 x 12 (mode,level) + all 40 forced versions at "
              "boundaries. distinct = distinct (mode, level, forced?, outcome incl. version); every such tuple is "
@@ -142,13 +142,13 @@ PROPS = {
         trusted=COMMON_TRUST),
     "C03": dict(
         module="FastQr.Props.C03", level="proof", key=key_build,
-        rule="cases: every version x (level, mask) with payload shapes random / full / empty; spec verdict = every finder, "
+        rule="cases: (`buildafter`: also on a thread that has just built a LARGER symbol — nothing of it may survive inside or outside the square) every version x (level, mask) with payload shapes random / full / empty; spec verdict = every finder, "
              "separator, timing, alignment, dark-module cell has the ISO value, side = 17+4v, backing array beyond size^2 untouched. "
              "distinct = (forced shape, reported fields, length class).",
         exhaustive_thorough=True, trusted=COMMON_TRUST + ["templateOk: evaluated by native_decide (Lean compiler trusted for this closed term)"]),
     "C04": dict(
         module="FastQr.Props.C04", level="proof", key=key_build,
-        rule="cases: exhaustive 4 levels x 8 masks x 40 versions with forced options + automatic selection of each option on "
+        rule="cases: (plus automatic selection on payloads where two candidates TIE at the minimum, found with the recorder; the symbol must read as a data stream under the reported level and mask) exhaustive 4 levels x 8 masks x 40 versions with forced options + automatic selection of each option on "
              "random payloads; spec verdict = both format copies = BCH(15,5) word of reported (level, mask), both version copies = "
              "BCH(18,6) (v>=7), size, forced options honoured, default Q, automatic mode = classifier, encoded mode = reported.",
         exhaustive_quick=True, exhaustive_thorough=True, trusted=COMMON_TRUST),
@@ -169,13 +169,13 @@ PROPS = {
         trusted=COMMON_TRUST),
     "C08": dict(
         module="FastQr.Props.C08", level="proof", key=key_unit,
-        rule="cases: real datamasking::mask on the real blank symbol, exhaustive 40 versions x 8 masks x 2 value fills; all 28 "
+        rule="cases: (plus pairs of forced masks whose penalties TIE, found with the recorder) real datamasking::mask on the real blank symbol, exhaustive 40 versions x 8 masks x 2 value fills; all 28 "
              "mask pairs of forced-mask builds of one payload (quick 6 versions, thorough all 40 x 3). distinct = (op, version, masks, level).",
         exhaustive_quick=True, exhaustive_thorough=True,
         trusted=COMMON_TRUST + ["sweepOk: evaluated by native_decide (Lean compiler trusted for this closed term)"]),
     "C10": dict(
         module="FastQr.Props.C10", level="proof", key=key_build,
-        rule="cases: lengths 0..8000 (quick stride 37 + capacity boundaries, thorough every length x 4 contents), arbitrary "
+        rule="cases: (`buildh`: half of the capacity-boundary cases also on a REUSED builder after a first build with one option different) lengths 0..8000 (quick stride 37 + capacity boundaries, thorough every length x 4 contents), arbitrary "
              "bytes with automatic mode, forced modes on their alphabets, random level/version/mask options; panics are "
              "caught (debug-assertions + overflow-checks on). Malformed stream (buildx) only validates the model's traps.",
         trusted=COMMON_TRUST, assumptions=["stack/heap exhaustion and allocator aborts are not modelled"]),
@@ -204,7 +204,7 @@ PROPS = {
     "C12": dict(
         module="FastQr.Props.C12", more_modules=["FastQr.Props.C12Doc"], level="proof",
         key=lambda t: ("svg", t[4], tuple(sorted(set(x.split(":")[0] + (":" + x.split(":")[1] if x.startswith(("s:", "sc:", "is:")) else "") for x in t[6].split(";")))), hash(t[6]) % 7) if len(t) > 7 else None,
-        rule="cases: real SvgBuilder::to_str on real symbols (versions 1..8 mostly, every 10th any version) under generated setter "
+        rule="cases: (image references: a fixed list and random compositions of ASCII, each XML-special character, entity look-alikes and 2/3/4-byte UTF-8 characters) real SvgBuilder::to_str on real symbols (versions 1..8 mostly, every 10th any version) under generated setter "
              "histories: margin 0..n, 0..3 shape()/shape_color() calls over the 6 shapes, colours as 3/4-byte arrays (alpha "
              "255/254/128/0) and strings, image strings incl. every XML-special character, quotes, entities, non-ASCII, empty. "
              "spec verdict = Spec.SvgParse: well-formed, viewBox/background, one path per layer whose sub-path anchors are "
@@ -225,7 +225,7 @@ PROPS = {
     "C18": dict(
         module="FastQr.Props.C18", level="proof",
         key=lambda t: ("svg", t[4], tuple(x for x in t[6].split(";") if x.startswith(("m:", "is:"))), tuple(sorted(x.split(":")[0] for x in t[6].split(";") if x.startswith(("iz", "ig", "ip"))))) if len(t) > 7 else None,
-        rule="cases: real SvgBuilder with an image: defaults exhaustive 40 versions x 3 frame shapes x margins 0..16; overrides: "
+        rule="cases: (override setters in ANY order, sometimes with an earlier value that a later call overrides) real SvgBuilder with an image: defaults exhaustive 40 versions x 3 frame shapes x margins 0..16; overrides: "
              "dyadic size / gap / position in every combination (quick 500, thorough 20000). spec verdict = frame and image "
              "attributes parsed to exact rationals: square, centred on symbol or on the requested position, integer edges, "
              "5b < 2n, clear of finder areas, image centred and no larger, requested size / gap honoured up to the 1-module "
@@ -266,7 +266,7 @@ PROPS = {
         module="FastQr.Props.C13", level="other", partial=True,
         key=lambda t: (("pixh", t[4], tuple(x[0] for x in t[7].split(";"))) if t[0] == "pixh" else ("pix", t[4], tuple(x for x in t[6].split(";") if x.startswith(("m:", "s:"))), t[7] != "-", t[8] != "-", t[6].split("bc:")[-1][-2:])) if len(t) > 9 else None,
         missing=["the rasteriser (resvg/usvg/tiny-skia), anti-aliasing, colour conversion and the PNG codec are external and not modelled"],
-        rule="cases: real ImageBuilder::to_pixmap / to_bytes: versions (quick 1, 2, 7; thorough all 40) x 6 shapes x margins "
+        rule="cases: (`pixh`: HISTORIES of 2..5 fit_width / fit_height calls on one builder — the last width and the last height both stay in force) real ImageBuilder::to_pixmap / to_bytes: versions (quick 1, 2, 7; thorough all 40) x 6 shapes x margins "
              "{0,1,4,7} x fits {original, width 4x, height 5x, both, 2x/3x, non-integer >= 4 px/module} x 4 colour pairs incl. "
              "transparent background. The harness canonicalises the pixmap to a per-cell summary (uniform colour class of all "
              "pixels of the cell at integer scale; class of the pixel containing the cell centre) and decodes the PNG with the "
